@@ -70,6 +70,9 @@ pub struct RunCfg {
   pub replay: Option<Vec<Decision>>,
   pub trace: bool,
   pub hash_seed: u64,
+  /// make every guard release a scheduling point too (other tasks can then observe a held
+  /// lock through try_* - only matters for code that uses try_lock/try_read/try_write)
+  pub release_points: bool,
 }
 
 impl RunCfg {
@@ -85,6 +88,7 @@ impl RunCfg {
       replay: None,
       trace: false,
       hash_seed: seed,
+      release_points: false,
     }
   }
 }
@@ -806,6 +810,11 @@ impl Exec {
     let mut st = self.lock();
     if st.aborting {
       return;
+    }
+    if st.cfg.release_points && st.tasks.len() > 1 && !std::thread::panicking() && st.current == me {
+      // scheduling point while the lock is still held
+      st.tasks[me].wait = Wait::Runnable;
+      st = self.reschedule(st, me, false).unwrap();
     }
     let l = &mut st.locks[lock];
     if write {
